@@ -75,10 +75,12 @@ struct Model {
     generic: bool,
 }
 
-const BASES: [&str; 17] = [
+const BASES: [&str; 19] = [
     "u32", "String", "bool", "f64", "I54", "char", "()", "Vec<u8>", "Vec<String>", "HashMap<String, u32>", "[u16; 2]", "Leaf", "Vec<Leaf>", "HashMap<String, Vec<Leaf>>",
     // slices: written like Vec<T> by every backend, but not what Go's `no_pointer_slice` is about
     "&'static [u16]", "Box<[Leaf]>", "&'static [Leaf]",
+    // user types whose names are reserved words of a target language (Swift escapes them)
+    "Type", "Vec<Protocol>",
 ];
 
 fn gen_model(rng: &mut Rng, exhaustive_index: Option<usize>) -> Model {
@@ -155,7 +157,7 @@ fn gen_model(rng: &mut Rng, exhaustive_index: Option<usize>) -> Model {
 
 fn render(m: &Model) -> String {
     let g = if m.generic { "<T>" } else { "" };
-    let mut s = String::from("#[typeshare]\npub struct Leaf { pub v: u8 }\n\n");
+    let mut s = String::from("#[typeshare]\npub struct Leaf { pub v: u8 }\n#[typeshare]\npub struct Type { pub t: u8 }\n#[typeshare]\npub struct Protocol { pub p: u8 }\n\n");
     s.push_str(&format!("#[typeshare]\npub struct Holder{g} {{\n"));
     for grp in &m.struct_groups {
         for sl in grp {
@@ -277,7 +279,7 @@ fn check_group(case: &Case<Model>, rep: &mut Report, position: &str, grp: &[Slot
 }
 
 fn base_class(t: &str) -> &'static str {
-    if t.contains("Leaf") {
+    if t.contains("Leaf") || t.contains("Type") || t.contains("Protocol") {
         "user"
     } else if t.contains('T') && !t.contains("String") {
         "generic"
